@@ -36,9 +36,6 @@ Fixpoint run_tank (t : tank) (ops : list top) : list Z :=
   end.
 
 (* ---------------- queue tanks ---------------- *)
-Inductive qop :=
-| QPush (v : vqip) (time : nat) (force : bool) | QPull (v : Q) | QPullExact (v : vqip)
-| QCheck (ov : option vqip) | QAvail | QEnd (T : Q) | QDs | QSetT (T : Q).
 Definition enc_buckets (b : list vqip) (L : nat) : list Z :=
   flat_map (fun k => ev (bget b k)) (seq 0 L).
 Definition enc_arc (a : arc) : list Z := encq (a_fin a) ++ encq (a_fout a) ++ ev (a_vin a) ++ ev (a_vout a).
@@ -47,16 +44,8 @@ Definition enc_qtank (L : nat) (t : qtank) : list Z :=
   ev (s_sto s) ++ ev (s_sto_ s) ++ ev (s_act s) ++ enc_buckets (l_b l) L ++ enc_arc (l_a l)
   ++ ev (l_decayed l) ++ encn (length (l_b l)).
 Definition qtank_step (t : qtank) (o : qop) : qtank * list Z :=
-  match o with
-  | QPush v time f => let '(t', r) := qt_push t v time f in (t', ev r)
-  | QPull v => let '(t', r) := qt_pull t v in (t', ev r)
-  | QPullExact v => let '(t', r) := qt_pull_exact t v in (t', ev r)
-  | QCheck ov => (t, ev (qt_push_check t ov))
-  | QAvail => (t, ev (qt_get_avail t))
-  | QEnd T => (qt_end (qt_set_T t T), [])
-  | QDs => (t, ev (qt_ds t))
-  | QSetT T => (qt_set_T t T, [])
-  end.
+  let '(t', r) := qtank_do t o in
+  (t', match o with QEnd _ | QSetT _ => [] | _ => ev r end).
 Fixpoint run_qtank (L : nat) (t : qtank) (ops : list qop) : list Z :=
   match ops with
   | [] => []
@@ -102,31 +91,11 @@ Definition nbport : port (nb * nb) :=
 Definition enc_nb (n : nb) : list Z :=
   match n with NT t => ev (t_sto t) | NS s => encn (sc_i s) end.
 
-Inductive aop :=
-| APush (v : vqip) (force : bool) (time : nat) | APull (v : Q) (time : nat)
-| APushCheck (ov : option vqip) | APullCheck (ov : option Q) | AEnd | ADs | ASetT (T : Q).
-Inductive akind := KArc | KPullArc | KPushArc.
-
+Definition has_reply (o : aop) : bool :=
+  match o with AEnd | ASetT _ => false | _ => true end.
 Definition arc_step (k : akind) (a : arc) (s : nb * nb) (o : aop) : arc * (nb * nb) * list Z :=
-  match o with
-  | APush v f _ =>
-      match k with
-      | KPullArc => (a, s, ev v)
-      | _ => let '(a', s', r) := a_send_push _ nbport a s v f in (a', s', ev r)
-      end
-  | APull v _ =>
-      match k with
-      | KPushArc => (a, s, ev vzero)
-      | _ => let '(a', s', r) := a_send_pull _ nbport a s v in (a', s', ev r)
-      end
-  | APushCheck ov =>
-      match k with KPullArc => (a, s, ev vzero) | _ => (a, s, ev (a_excess_push _ nbport a s ov)) end
-  | APullCheck ov =>
-      match k with KPushArc => (a, s, ev vzero) | _ => (a, s, ev (a_excess_pull _ nbport a s ov)) end
-  | AEnd => (a_end a, s, [])
-  | ADs => (a, s, ev vzero)
-  | ASetT _ => (a, s, [])
-  end.
+  let '(a', s', r) := arc_do _ nbport k a s o in
+  (a', s', if has_reply o then ev r else []).
 Fixpoint run_arc (k : akind) (a : arc) (s : nb * nb) (ops : list aop) : list Z :=
   match ops with
   | [] => []
@@ -140,15 +109,8 @@ Definition enc_qarc (q : qarc) : list Z :=
   enc_arc (q_a q) ++ encn (length (q_queue q)) ++ flat_map enc_req (q_queue q)
   ++ ev (q_qs q) ++ ev (q_qs_ q) ++ ev (q_decayed q).
 Definition qarc_step (q : qarc) (s : nb * nb) (o : aop) : qarc * (nb * nb) * list Z :=
-  match o with
-  | APush v f time => let '(q', s', r) := q_send_push _ nbport q s v f time in (q', s', ev r)
-  | APull v time => let '(q', s', r) := q_send_pull _ nbport q s v time in (q', s', ev r)
-  | APushCheck ov => (q, s, ev (a_excess_push _ nbport (q_a q) s ov))
-  | APullCheck ov => (q, s, ev (a_excess_pull _ nbport (q_a q) s ov))
-  | AEnd => (q_end q, s, [])
-  | ADs => let '(q', d) := q_ds q in (q', s, ev d)
-  | ASetT T => (q_set_T q T, s, [])
-  end.
+  let '(q', s', r) := qarc_do _ nbport q s o in
+  (q', s', if has_reply o then ev r else []).
 Fixpoint run_qarc (q : qarc) (s : nb * nb) (ops : list aop) : list Z :=
   match ops with
   | [] => []
